@@ -870,6 +870,7 @@ HOSTILE_TEXTS = [
     "{}", "{0}", "{ident}", "{", "}", "{{}}", "${x}", "\\", "\\n", "\\x00", "a\rb", "a\nb", "\r\n\r\n",
     "\r\n\r\nHTTP/1.1 200 OK\r\nContent-Length: 0\r\n\r\n", "\x00", "\x7f", "\x85", "\xe9", "\u20ac", "\U0001f600",
     "\u2028", "\ufeff", "", " ", "(generated by evil)", "x" * 5000, "%s" * 60, "\u20ac" * 700,
+    "caf\udce9.txt", "\ud800", "\udfff\udc80x", "ok \ud83d alone",        # lone surrogates (surrogateescape-decoded names)
     'Malformed header line "a%zb"', "Invalid header %41", "Traceback %(lineno)d\n  raise ValueError('%d' % n)\n",
 ]
 HOSTILE_IDENTS = ["waitress", "", "srv%s", "a%", "{}", "{0}", "Id\xe9nt", "%(x)s", "srv\\1"]
@@ -888,7 +889,10 @@ def expected_error_body(case, reason=None, body=None):
             reason = "Internal Server Error"
             body = cfg["tb"] if cfg["expose"] else "The server encountered an unexpected internal server error"
     ident = cfg["ident"] or "server"
-    return (reason + "\r\n\r\n" + body + "\r\n\r\n(generated by " + ident + ")").encode("utf-8")
+    text = reason + "\r\n\r\n" + body + "\r\n\r\n(generated by " + ident + ")"
+    # UTF-8; a lone surrogate cannot be encoded: it must show as the six characters \udxxx
+    # (and must not make the error response fail: /repo fix 0c01604)
+    return b"".join(("\\u%04x" % ord(ch)).encode("ascii") if 0xD800 <= ord(ch) <= 0xDFFF else ch.encode("utf-8") for ch in text)
 
 
 def hostile_error_cases(rng, tier):
@@ -935,7 +939,7 @@ def hostile_error_cases(rng, tier):
             out.append((("hostile ident, request.error", repr(ident), text),
                         mk_case(err=["BadRequest", text], ident=ident, version="1.0", conn="keep-alive")))
     # random texts over the alphabet
-    alpha = ["%", "s", "d", "(", ")", "{", "}", "0", "\\", "\r", "\n", "\x00", "\u20ac", "\U0001f600", "a", " ", "\xe9"]
+    alpha = ["%", "s", "d", "(", ")", "{", "}", "0", "\\", "\r", "\n", "\x00", "\u20ac", "\U0001f600", "a", " ", "\xe9", "\udce9", "\ud800"]
     n = 150 if tier == "quick" else 3000
     for _ in range(n):
         text = "".join(rng.choice(alpha) for _ in range(rng.choice([1, 2, 3, 5, 8, 40])))
